@@ -41,7 +41,7 @@ def run(ctx):
                       {"kind": "c13-history", "case": {"entries": r["entries"]}})
     ctx.coverage.update({
         "evaluations": st["logs"], "distinct_nontrivial": st["histories"],
-        "rule": "histories = every single entry of the pool (6 kind/target combinations x time / amount / metadata / key / id classes that matter for the kind) + every chain of 2..%d entries over one representative per kind; each instantiated %s times with values drawn from seeded pools (nanosecond and far dates, zone offsets, amounts up to 2^200, unicode / quoted metadata, 255-char keys, ids above 2^53); distinct = distinct histories" % (4 if thorough else 3, "40" if thorough else "8"),
+        "rule": "histories = every single entry of the pool (6 kind/target combinations x time / amount / metadata / key / id classes that matter for the kind) + every chain of 2..%d entries over one representative per kind; each instantiated %s times with values drawn from seeded pools (nanosecond and far dates, zone offsets, amounts up to 2^200, unicode / quoted metadata, deleted keys and idempotency keys needing JSON escapes, 255-char keys, ids above 2^53, the last instants of year 9999 as ParseTime accepts them); distinct = distinct histories" % (4 if thorough else 3, "40" if thorough else "8"),
         "logs_round_tripped": st["logs"], "by_kind": st["by_kind"], "model_states": g.get("distinct", 0), "predicate_failures": counts,
         "samples": st["samples"][:1], "exhaustive": False,
     })
